@@ -211,6 +211,14 @@ def run(facts, rep, tier, ctx):
         run_world(facts, rep, wa, {"sites": 16, "observers": 9})
     else:
         rep.fail("R08.4", "async_vfs", "async world present", "async_vfs module not found in the all-features build")
+    # R08.9 "every mutation lands in the upper layer" also in the literal sense: the path a mutation is applied to is built
+    # relative to the write layer (an absolute join restarts at the root of the filesystem the layer lives in — outside the
+    # layer, possibly inside a lower one), and no path is built on a layer found by the resolver
+    from . import c09 as _c09
+    from .c10 import _Prefixed as _Pf8
+    for w in (ws, wa):
+        if w.present():
+            _c09.relative_join_rules(facts, rep if not w.asyncw else _Pf8(rep, "A"), w, rule="R08.9")
     # R08.5 a copy-up must produce an independent copy: the upper layer's file may not share storage with the lower one
     # (a hard link / rename instead of a byte copy lets a later append through the overlay re-write the lower layer's file)
     from .. import physrules
